@@ -327,6 +327,11 @@ def run(res, tier, rng):
             for t in ("", "/", "/i", "/s", "/groups/", "/user/", "/c/", "/channel/", "/shorts/", "/embed/", "/v/", "/p/", "/reel/", "/joinchat", "/s/joinchat", "/document/d", "/document/d/e/pub"):
                 cases.append((plat, h + t))
                 cases.append((plat, "https://" + h + t))
+        # every one-segment route x every single query item (routes that are decided by the query)
+        for seg in p["segs"]:
+            for k in p["qkeys"]:
+                for v in p["qvals"]:
+                    cases.append((plat, "https://" + p["hosts"][0] + "/" + seg + "?" + k + "=" + v))
     for s in FOREIGN:
         for plat in PLATFORMS:
             cases.append((plat, s))
@@ -398,7 +403,7 @@ def run(res, tier, rng):
     res.nontrivial = nontriv
     res.rule = ("for each of the 6 platforms: every path of <= %d segments over the platform's route vocabulary plus id-like / handle-like / too-short / too-long / non-ASCII / escaped / dot segments "
                 "(then seeded random paths up to 5 segments), on the platform's hosts (case variants, subdomains, short domains), rotating scheme forms (https, http, none, '//', userinfo), trailing "
-                "slash / empty segment, 0-3 query items over the platform's keys ('&' and '&amp;'), routing fragments; the truncated routes of the statement on every host; foreign and malformed "
+                "slash / empty segment, 0-3 query items over the platform's keys ('&' and '&amp;'), routing fragments; the truncated routes of the statement on every host; every one-segment route x every single query item; foreign and malformed "
                 "strings. Every parse_* / extract_* / is_* / has_* / convert_* / normalize_* function: no undocumented exception, documented record types, validators on ids, record.url (Facebook, "
                 "Google Drive) and normalize_youtube_url re-parse to the same record, normalize_youtube_url idempotent; model vs implementation, including normalize_url / fingerprint_url with platform_aware=True on the Facebook / YouTube urls x sampled options. Non-trivial = (function, url) pairs yielding a record."
                 % depth)
